@@ -63,7 +63,66 @@ def rule_hmac(ctx):
         c = uses_hmac[0]
         ok = len(c.args) >= 2 and ("sha1" in unparse(c) or "SHA1" in unparse(c))
         ctx.check("C20.hmac", ok, w, c, "hmac construction must use SHA-1 over the key and the message", "library HMAC-SHA1")
-        ctx.undecided("C20.hmac", w, fn, "library-HMAC form found; message/key provenance not modelled")
+        # library form: hmac.new(key, message, sha1) - the hand-built construction keys the hash with the FIRST 64 bytes of
+        # the decoded constant (one SHA-1 block); the library would hash a longer key first, so the key must be cut to 64
+        locals_ = {}
+        for n in ast.walk(fn):
+            if isinstance(n, ast.Assign) and isinstance(n.targets[0], ast.Name):
+                locals_.setdefault(n.targets[0].id, []).append(n.value)
+
+        def resolve(e, depth=0):
+            while isinstance(e, ast.Name) and len(locals_.get(e.id, [])) == 1 and depth < 6:
+                e = locals_[e.id][0]
+                depth += 1
+            while isinstance(e, ast.Call) and isinstance(e.func, ast.Name) and e.func.id in ("bytes", "bytearray") and len(e.args) == 1:
+                e = resolve(e.args[0], depth + 1)
+            return e
+        kw = {k.arg: k.value for k in c.keywords}
+        key_e = resolve(c.args[0] if c.args else kw.get("key"))
+        msg_e = c.args[1] if len(c.args) > 1 else kw.get("msg")
+        dig_e = c.args[2] if len(c.args) > 2 else kw.get("digestmod")
+        import base64 as _b64
+        okk = False
+        what = unparse(key_e)[:60] if key_e is not None else "?"
+        cut = None
+        base = key_e
+        if isinstance(key_e, ast.Subscript) and isinstance(key_e.slice, ast.Slice) and key_e.slice.step is None:
+            lo = alts(ev.ev(key_e.slice.lower)) if key_e.slice.lower is not None else [0]
+            hi = alts(ev.ev(key_e.slice.upper)) if key_e.slice.upper is not None else None
+            if lo == [0] and hi and len(hi) == 1:
+                cut = hi[0]
+            base = resolve(key_e.value)
+        if isinstance(base, ast.Call) and unparse(base.func).endswith("b64decode") and base.args:
+            kv = alts(ev.ev(base.args[0]))
+            if kv and isinstance(kv[0], str):
+                try:
+                    n_ = len(_b64.b64decode(kv[0]))
+                    okk = unparse(base.args[0]).endswith("_KEY") and ((cut == 64 and n_ >= 64) or (cut is None and n_ == 64))
+                except Exception:
+                    okk = False
+        ctx.check("C20.hmac", okk, w, "key = " + what, "the key must be the first 64 bytes (one SHA-1 block) of the base64-decoded class constant; a longer key is hashed by the library first and gives another token", "key = decoded class constant cut to the 64-byte block")
+        flat = []
+        for o in add_chain(resolve(msg_e)) if msg_e is not None else []:
+            o2 = resolve(o)
+            flat += add_chain(o2) if isinstance(o2, ast.BinOp) else [o2]
+        flat = [resolve(x) for x in flat]
+
+        def decoded_const(e, name):
+            return isinstance(e, ast.Call) and unparse(e.func).endswith("b64decode") and e.args and unparse(e.args[0]).endswith(name)
+        okm = len(flat) == 3 and decoded_const(flat[0], "_SIGNATURE") and decoded_const(flat[1], "_MD5_CLASSES") \
+            and isinstance(flat[2], ast.Call) and isinstance(flat[2].func, ast.Attribute) and flat[2].func.attr == "encode" and unparse(flat[2].func.value) == phone
+        ctx.check("C20.hmac", okm, w, "message = " + " + ".join(unparse(x)[:30] for x in flat), "the MAC must cover signature || class digest || phone number, in that order", "message = signature || class digest || number")
+        okd = dig_e is not None and unparse(dig_e) in ("hashlib.sha1", "'sha1'", "sha1")
+        ctx.check("C20.hmac", okd, w, "digest = " + (unparse(dig_e) if dig_e is not None else "?"), "the keyed hash must be SHA-1", "SHA-1")
+        rets = [r for r in ast.walk(fn) if isinstance(r, ast.Return) and r.value is not None]
+        macvars = [t.id for n in ast.walk(fn) if isinstance(n, ast.Assign) and n.value is c for t in n.targets if isinstance(t, ast.Name)]
+        okr = len(rets) == 1
+        if okr:
+            rv = resolve(rets[0].value)
+            okr = isinstance(rv, ast.Call) and unparse(rv.func).endswith("b64encode") and len(rv.args) == 1 and isinstance(resolve(rv.args[0]), ast.Call) \
+                and isinstance(resolve(rv.args[0]).func, ast.Attribute) and resolve(rv.args[0]).func.attr == "digest" \
+                and (resolve(rv.args[0]).func.value is c or (isinstance(resolve(rv.args[0]).func.value, ast.Name) and resolve(rv.args[0]).func.value.id in macvars))
+        ctx.check("C20.hmac", okr, w, "token = base64(mac.digest())", "the token must be the base64 text of the full MAC", "base64 of the digest")
         return
     ctx.check("C20.hmac", pads.get(0x5C) is not None and pads.get(0x36) is not None and pads.get(0x5C) != pads.get(0x36) and block == (0, 64, 1), w,
               "pads %s over block %s" % ({hex(k): v for k, v in pads.items()}, block),
@@ -150,6 +209,9 @@ def rule_env(ctx):
     cls = repo.cls(REQ, "WARequest")
     fn = repo.method(REQ, "WARequest", "encryptParams")
     w = where(REQ, "WARequest.encryptParams", fn.lineno)
+    from ..repo import inline_private_calls
+    from ..normalize import guarded_returns_to_ifexp
+    fn = inline_private_calls(repo, cls, fn, helper_transform=guarded_returns_to_ifexp)     # a private sealing helper is part of the envelope
     ev = Evaluator(repo, cls.module, cls)
     g = CFG(fn)
     pe = PathEval(fn, ev)
@@ -204,62 +266,92 @@ def rule_order(ctx):
     cls = repo.cls(REQ, "WARequest")
     up = repo.method(REQ, "WARequest", "urlencodeParams")
     w = where(REQ, "WARequest.urlencodeParams", up.lineno)
-    P = params_of(up)[0]
-    loops = [n for n in ast.walk(up) if isinstance(n, ast.For)]
-    ok = len(loops) == 1 and isinstance(loops[0].iter, ast.Name) and loops[0].iter.id == P
-    ctx.check("C20.order", ok, w, loops[0] if loops else up, "parameters must be visited in list order (no sorting / reordering of %s)" % P, "iterates the list in order")
-    if loops and isinstance(loops[0].target, ast.Tuple) and len(loops[0].target.elts) == 2:
-        k, v = [e.id for e in loops[0].target.elts]
-        app = [c for c in ast.walk(loops[0]) if isinstance(c, ast.Call) and isinstance(c.func, ast.Attribute) and c.func.attr == "append"]
-        okv = False
-        if len(app) == 1 and isinstance(app[0].args[0], ast.BinOp) and isinstance(app[0].args[0].op, ast.Mod):
-            fmt, tup = app[0].args[0].left, app[0].args[0].right
-            okv = isinstance(fmt, ast.Constant) and fmt.value == "%s=%s" and isinstance(tup, ast.Tuple) and unparse(tup.elts[0]) == k \
-                and isinstance(tup.elts[1], ast.Call) and unparse(tup.elts[1].func).endswith(".urlencode") and unparse(tup.elts[1].args[0]) == v
-        ctx.check("C20.order", okv, w, app[0] if app else loops[0], "each pair must be emitted as name=urlencode(value)", "name=urlencode(value)")
-        merged = app[0].func.value.id if app and isinstance(app[0].func.value, ast.Name) else None
-        rets = [r for r in ast.walk(up) if isinstance(r, ast.Return)]
-        okj = len(rets) == 1 and isinstance(rets[0].value, ast.Call) and isinstance(rets[0].value.func, ast.Attribute) and rets[0].value.func.attr == "join" \
-            and isinstance(rets[0].value.func.value, ast.Constant) and rets[0].value.func.value.value == "&" and unparse(rets[0].value.args[0]) == merged
-        ctx.check("C20.order", okj, w, rets[0] if rets else up, "pairs must be joined with & in the order they were appended", "'&'.join in append order")
+    # urlencodeParams, abstractly executed on lists of (name, value) pairs: name=urlencode(value) joined by & in list order
+    from ..absint import Interp as _I, _Raise as _R, NeedAtom as _NA, Budget as _B
+    import urllib.parse as _up2
+
+    def _q(itp, e, a, k, env, d):
+        if a and all(x[0] == "c" for x in a) and all(v[0] == "c" for v in k.values()):
+            return ("c", _up2.quote(*[x[1] for x in a], **{kk: v[1] for kk, v in k.items()}))
+        return None
+    it0 = _I(repo, {}, {}, hooks={"builtin:urllib_quote": _q, "builtin:quote": _q})
+    cases = [([("b", "2"), ("a", "1"), ("c", "x y")], "b=2&a=1&c=x%20y"), ([("a", "1"), ("b", "2")], "a=1&b=2"), ([("z", "\u00e9"), ("a", b"\xff")], "z=%c3%a9&a=%ff"), ([], "")]
+    bad, unknown = [], None
+    for pairs, want_ in cases:
+        arg = ("list", [("c", p_) for p_ in pairs])
+        try:
+            r = it0.call_function(up, cls, ("cls", cls), [arg], {}, depth=0)
+        except _R as x:
+            bad.append("%r raises %s" % (pairs, x.text[:40]))
+            continue
+        except (_NA, _B) as x:
+            unknown = str(x)
+            break
+        if r[0] != "c":
+            unknown = "result for %r is not a constant" % (pairs,)
+            break
+        if r[1] != want_:
+            bad.append("%r -> %r, expected %r" % (pairs, r[1], want_))
+    if unknown:
+        ctx.undecided("C20.order", w, up, "urlencodeParams could not be evaluated: " + unknown)
+    else:
+        ctx.check("C20.order", not bad, w, "name=urlencode(value) joined by & in list order",
+                  "parameters must be visited in list order (no sorting / reordering), each emitted as name=urlencode(value), joined with &: " + "; ".join(bad[:2]), "list order kept; name=urlencode(value); '&'.join")
     # addParam appends to a list
     ap = repo.method(REQ, "WARequest", "addParam")
     ok = any(isinstance(c, ast.Call) and unparse(c.func) == "self.params.append" and isinstance(c.args[0], ast.Tuple) and [unparse(e) for e in c.args[0].elts] == params_of(ap) for c in ast.walk(ap))
     init = repo.method(REQ, "WARequest", "__init__")
     lst = any(isinstance(n, ast.Assign) and unparse(n.targets[0]) == "self.params" and isinstance(n.value, ast.List) for n in ast.walk(init))
     ctx.check("C20.order", ok and lst, where(REQ, "WARequest.addParam", ap.lineno), "self.params.append((name, value))", "parameters must be kept in a list in insertion order", "list, appended in order")
-    # urlencode: every character through quote(safe=''), escapes lower-cased, extra escapes consistent
+    # urlencode over its whole finite domain: every byte value (as a one-byte bytes value), every one-character ASCII str,
+    # and non-ASCII characters - abstractly executed with urllib's quote as the only primitive.  Expected: unreserved
+    # characters [A-Za-z0-9.] literally, everything else (also - _ ~) as lower-case %xx of its UTF-8 bytes, one escape
+    # per byte of a bytes value
     ue = repo.method(REQ, "WARequest", "urlencode")
     wu = where(REQ, "WARequest.urlencode", ue.lineno)
-    q = [c for c in ast.walk(ue) if isinstance(c, ast.Call) and unparse(c.func) == "urllib_quote"]
-    okq = len(q) == 1 and any(k.arg == "safe" and isinstance(k.value, ast.Constant) and k.value.value == "" for k in q[0].keywords)
-    perchar = any(isinstance(n, ast.For) and unparse(n.iter) == params_of(ue)[0] and any(c is q[0] for c in ast.walk(n)) for n in ast.walk(ue)) if q else False
-    ctx.check("C20.order", okq and perchar, wu, q[0] if q else ue, "every character of the value must be quoted with no safe characters", "per-character quote(safe='')")
-    # elements of a bytes value are ints: each must reach quote() as that one byte (bytes / bytearray of the single
-    # element), never as a code point (chr(b) is quoted as its UTF-8 encoding: two escapes for b >= 0x80)
-    from ..types import expr_types
-    if q and perchar:
-        loop = [n for n in ast.walk(ue) if isinstance(n, ast.For) and any(c is q[0] for c in ast.walk(n))][0]
-        cv = loop.target.id if isinstance(loop.target, ast.Name) else None
-        int_branches = [n for n in ast.walk(loop) if isinstance(n, ast.If) and "int" in unparse(n.test) and cv and cv in unparse(n.test)]
-        okb = None
-        what = "no branch converts the int elements of a bytes value"
-        if len(int_branches) == 1 and unparse(q[0].args[0]) == cv:
-            rebinds = [st_ for st_ in int_branches[0].body if isinstance(st_, ast.Assign) and isinstance(st_.targets[0], ast.Name) and st_.targets[0].id == cv]
-            if len(rebinds) == 1:
-                ts = expr_types(repo, cls, ue, rebinds[0].value)
-                v = rebinds[0].value
-                single = isinstance(v, ast.Call) and len(v.args) == 1 and isinstance(v.args[0], (ast.List, ast.Tuple)) and len(v.args[0].elts) == 1 and unparse(v.args[0].elts[0]) == cv
-                okb = bool(ts) and ts <= {"bytes", "bytearray"} and single
-                what = "the int element is turned into %s (%s)" % (unparse(v), "/".join(sorted(ts)))
-        ctx.check("C20.order", okb, wu, int_branches[0] if int_branches else loop, "a byte of a bytes value must be quoted as that single byte (bytes([b]) / bytearray([b])): %s, so bytes >= 0x80 are percent-encoded as the UTF-8 form of a code point (two escapes) and the server decodes another value" % what,
-                  "each byte quoted as itself")
-    rep = [c for c in ast.walk(ue) if isinstance(c, ast.Call) and isinstance(c.func, ast.Attribute) and c.func.attr == "replace" and len(c.args) == 2
-           and all(isinstance(a, ast.Constant) and isinstance(a.value, str) for a in c.args)]
-    for c in rep:
-        a, b = c.args[0].value, c.args[1].value
-        ctx.check("C20.order", len(a) == 1 and b.lower() == "%%%02x" % ord(a), wu, "replace(%r, %r)" % (a, b), "extra escape for %r must be %s (standard decoding would return a different character)" % (a, "%%%02x" % ord(a[0])), "escape decodes back to %r" % a)
-    conv = any(isinstance(n, ast.If) and "str" in unparse(n.test) and "bytes" in unparse(n.test) and any(isinstance(s, ast.Assign) and unparse(s.value).startswith("str(") for s in n.body) for n in ast.walk(ue))
+    from ..absint import Interp, _Raise, NeedAtom, Budget
+    import urllib.parse as _up
+
+    def quote_hook(itp, e, a, k, env, d):
+        if a and a[0][0] == "c" and all(v[0] == "c" for v in k.values()) and all(x[0] == "c" for x in a):
+            try:
+                return ("c", _up.quote(*[x[1] for x in a], **{kk: v[1] for kk, v in k.items()}))
+            except Exception as x:
+                raise _Raise(("ext", type(x).__name__, []), str(x))
+        return None
+    it = Interp(repo, {}, {}, hooks={"builtin:urllib_quote": quote_hook, "builtin:quote": quote_hook})
+
+    def want(bs):
+        return "".join(chr(b) if (chr(b).isalnum() and b < 128) or chr(b) == "." else "%%%02x" % b for b in bs)
+    samples = [bytes([b]) for b in range(256)] + [chr(b) for b in range(128)] + ["\u00e9", "\u20ac", "a-b_c~d.e f", b"\x00\xff-_~"]
+    bad, unknown = [], None
+    for v in samples:
+        try:
+            r = it.call_function(ue, cls, ("cls", cls), [("c", v)], {}, depth=0)
+        except _Raise as x:
+            bad.append("%r raises %s" % (v, x.text[:40]))
+            continue
+        except (NeedAtom, Budget) as x:
+            unknown = "%r: %s" % (v, x)
+            break
+        if r[0] != "c" or not isinstance(r[1], str):
+            unknown = "%r evaluates to %s" % (v, r[0])
+            break
+        w_ = want(v if isinstance(v, bytes) else v.encode("utf-8"))
+        if r[1] != w_:
+            bad.append("%r -> %r, expected %r" % (v, r[1], w_))
+    if unknown:
+        ctx.undecided("C20.order", wu, ue, "urlencode could not be evaluated: " + unknown)
+    else:
+        ctx.check("C20.order", not bad, wu, "percent-encoding of every byte value / ASCII character",
+                  "every character of the value must be quoted with no safe characters, lower-case escapes, one escape per byte (a byte of a bytes value must be quoted as that single byte): " + "; ".join(bad[:3]) + (" (+%d)" % (len(bad) - 3) if len(bad) > 3 else ""),
+                  "only [A-Za-z0-9.] literal, everything else %%xx lower case (%d inputs)" % len(samples))
+    num = None
+    try:
+        num = it.call_function(ue, cls, ("cls", cls), [("c", 4915)], {}, depth=0)
+    except (_Raise, NeedAtom, Budget):
+        pass
+    conv = num == ("c", "4915")
     ctx.check("C20.order", conv, wu, "non-text values", "values that are neither str nor bytes must be converted with str()", "numbers converted with str()")
     # the token parameter is the env token of the national number
     for rel, cn in (("yowsup/registration/coderequest.py", "WACodeRequest"), ("yowsup/registration/existsrequest.py", "WAExistsRequest")):
@@ -273,9 +365,9 @@ def rule_order(ctx):
 
 
 def run(ctx):
-    ctx.rule("C20.hmac", "keyed-hash construction shape of getToken", floor=6)
+    ctx.rule("C20.hmac", "keyed-hash construction shape of getToken (hand-built or library HMAC)", floor=5)
     ctx.rule("C20.env", "envelope provenance in encryptParams", floor=6)
-    ctx.rule("C20.order", "parameter order and percent-encoding table", floor=10)
+    ctx.rule("C20.order", "parameter order and percent-encoding table (finite-domain evaluation of urlencode / urlencodeParams)", floor=6)
     ctx.assume("SHA-1, base64, X25519 agreement and AES-GCM primitives are trusted; equality with independent computations is not decided")
     ctx.guarded("C20.hmac", rule_hmac, ctx)
     ctx.guarded("C20.env", rule_env, ctx)
